@@ -223,7 +223,7 @@ def py_stmt(n, env='module'):
         if len(n.targets) != 1:
             return ('ChainAssign', tuple(py_target(t) for t in n.targets), py_expr(n.value))
         t = n.targets[0]
-        targets = tuple(py_target(e) for e in t.elts) if isinstance(t, ast.Tuple) else (py_target(t, in_ctor),)
+        targets = tuple(py_target(e, in_ctor) for e in t.elts) if isinstance(t, ast.Tuple) else (py_target(t, in_ctor),)
         return ('Assign', targets, py_expr(n.value))
     if isinstance(n, ast.AnnAssign):
         return ('AnnAssign', py_target(n.target, in_ctor), py_type(n.annotation), py_opt(n.value))
